@@ -56,6 +56,10 @@ def inject_cond(g, spec):
     toks = k.split(".")
     if toks[0].lower() in ("value", "key", "index"):
         out.append(("unknown datum kind", {".".join(["valu"] + toks[1:]): v}))
+        # an operator name where the datum kind goes (with a value of any shape, and with the list of conditions an operator takes)
+        opn = g.r.choice(["and", "or", "xor", "AND", "Or"])
+        out.append(("operator name as datum kind", {".".join([opn] + toks[1:]): v}))
+        out.append(("operator name as datum kind", {".".join([opn] + toks[1:]): g.r.choice([[], [{"value.truthy": None}], [{k: v}, {}]])}))
         out.append(("unknown callable", {".".join(toks[:-1] + ["no_such_callable"]): v}))
         # names that only LOOK like known ones (non-ASCII letters that caseless folding would map onto ASCII): unknown
         look = g.r.choice([("le\u00df_than", "less_than"), ("key\u017f_contain", "keys_contain"), ("\ufb01rst", "first"), ("i\u017f_instance", "is_instance"),
